@@ -41,17 +41,17 @@ func (d *distWitness) GetLatestCheckpoint(ctx context.Context, logID string) ([]
 }
 
 type c15Result struct {
-	W       *World
-	err     error
-	reqs    []*NetReq
-	wcalls  []string
-	answers map[string][]byte
-	kinds   []string
-	net     []string
-	witName string
-	fired   map[string]int
-	simTime time.Duration
-	infra   string
+	W             *World
+	err           error
+	reqs          []*NetReq
+	wcalls        []string
+	answers       map[string][]byte
+	kinds         []string
+	net           []string
+	witName       string
+	fired         map[string]int
+	simTime       time.Duration
+	infra         string
 	neverFinished bool
 }
 
@@ -409,7 +409,7 @@ func init() {
 			p.Cfg.Notes = map[string]string{"answers": strings.Join(ans, ","), "net": strings.Join(net, ","),
 				"redirect_target": Pick(r, "404", "200"),
 				"client_timeout":  Pick(r, "5s", "5s", "none"),
-				"witname": Pick(r, "wit0", "wit0", "witness.example/w1", "w%41", "wit?x#y", "ŵit-ness", "a:b@c", "wit&co=1")}
+				"witname":         Pick(r, "wit0", "wit0", "witness.example/w1", "w%41", "wit?x#y", "ŵit-ness", "a:b@c", "wit&co=1")}
 			if p.Cfg.Notes["client_timeout"] == "none" {
 				p.Cfg.Notes["net"] = strings.ReplaceAll(p.Cfg.Notes["net"], "stall", "drop") // a stalled peer and no timeout never ends, by definition
 			}
